@@ -172,6 +172,20 @@ def check(P, rep):
             rep.check(okm, 'C11.R6', 'deploy_interchain_token:initial-minter', 'the constructor\'s minter is none, the service (while it mints the supply) or the minter parameter', esite(g, d), fmt(m)[:200])
             rep.check(len(args) == 4 and core(args[3]) == meta, 'C11.R6', 'deploy_interchain_token:metadata', 'the requested metadata is passed to the token constructor', esite(g, d))
         adds = [e for e in state_effects(g) if e.kind == 'xcall' and e.method == 'add_minter']
+        # whenever a minter is designated, every successful deployment gives it minting rights: either the constructor receives
+        # Some(minter) (the definition of that alternative lies on the path) or add_minter(minter) is called afterwards
+        grant_nodes = [e.node for e in adds if [core(x) for x in e.args] == [minter]]
+        for d in deps:
+            t_ = d.ctx.body['blocks'][d.bb]['term']
+            for nodes, leaf in g.def_chains(d.ctx, d.bb, len(d.ctx.body['blocks'][d.bb]['st']),
+                                            {'l': t_['args'][2]['pl']['l'], 'p': list(t_['args'][2]['pl'].get('p', [])) + [{'f': 1, 'n': '1'}]}):
+                if nodes and (core(leaf) == minter or (variant_name(leaf) == 'Some' and leaf[3] and core(leaf[3][0]) == minter)):
+                    grant_nodes.append(nodes[-1])
+        no_minter = guard_sel(g, lambda c_: c_ == ('absent', minter))
+        rep.floor('deploy_interchain_token designated-minter grant sites', len(grant_nodes), 2)
+        rep.check(bool(grant_nodes) and g.success_needs(grant_nodes, edges(no_minter)), 'C11.R6', 'deploy_interchain_token:designated-minter-gets-rights',
+                  'whenever a minter is designated, every successful deployment passes a grant of minting rights to it (constructor argument or add_minter), '
+                  'for every initial supply', entry_id(g))
         for e in adds:
             rep.check(on_deployed(e) and [core(x) for x in e.args] == [minter], 'C11.R6', 'deploy_interchain_token:add-minter',
                       'only the minter parameter is added as minter', esite(g, e), e.describe()[:200])
